@@ -20,12 +20,16 @@ package support
 
 //@ func (*defaultSingletonComponentRegistry).GetSingletonOrCreateByFactory
 //@ implements container.SingletonComponentRegistry
+//@ ghost after call Put: r.Hole = name
+//@ ghost after call Put: r.HasHole = true
+//@ ghost after call GetComponent: r.HasHole = false
 
 //@ func (*defaultSingletonComponentRegistry).AddSingleton
 //@ implements container.SingletonComponentRegistry
 
 //@ func (*defaultSingletonComponentRegistry).AddSingletonFactory
 //@ implements container.SingletonComponentRegistry
+//@ ghost after call Store: r.HasHole = r.HasHole && r.Hole != name
 
 //@ func (*defaultSingletonComponentRegistry).RemoveSingleton
 //@ implements container.SingletonComponentRegistry
